@@ -66,6 +66,20 @@ func checkC05(c PairCase, r *rec.Rec) error {
 }
 
 func genC05(t *rapid.T) PairCase {
+	if gen.Chance(t, "mergePrecision", 6) {
+		// both CLIs accept -f merge together with -precision
+		pc := genEqPair(t, []string{"list"}, true)
+		for i := 0; i < 3; i++ {
+			if _, ok := jdx.Precision(pc.Opts); ok {
+				break
+			}
+			pc = genEqPair(t, []string{"list"}, true)
+		}
+		if _, ok := jdx.Precision(pc.Opts); ok {
+			av, bv := val.MustParse(pc.A), val.MustParse(pc.B)
+			return PairCase{A: val.JSON(stripNulls(av)), B: val.JSON(stripNulls(bv)), Opts: "merge+" + pc.Opts}
+		}
+	}
 	if gen.Chance(t, "fromC01", 35) {
 		return genPairCase(t, c05OptSets, nil)
 	}
@@ -233,7 +247,7 @@ func genC05CLI(t *rapid.T) CLIPairCase {
 			}
 		}
 	}
-	if gen.Chance(t, "color", 10) {
+	if gen.Chance(t, "color", 10) && !hasLongString(val.MustParse(c.A), 3000) {
 		c.Flags = append(c.Flags, "-color")
 	}
 	c.Yaml = gen.Chance(t, "yaml", 20)
